@@ -9,6 +9,14 @@ from .c08 import unproxy
 CHECKS = ('c01',)
 
 
+def _preorder(roots):
+    out = []
+    for r in roots:
+        out.append(r)
+        out.extend(r.eAllContents())
+    return out
+
+
 def load_pass(ctx):
     """saved documents with one end of a bidirectional reference rewritten (another valid target, a target dropped, a
     target given twice): whatever the loader decides, the loaded model is symmetric"""
@@ -55,6 +63,45 @@ def load_pass(ctx):
                     ctx.violate({'clause': 'sym-after-load', 'format': fmt, 'document': how},
                                 f'after loading a {fmt} document ({how}): {bad}',
                                 {'case': h, 'format': fmt, 'document': how, 'text': doc.decode('utf-8', 'replace')[:3000]})
+                    break
+                # the loaded collections are then used: taking values out of many-valued ends by value (the positions a
+                # loader may have rearranged are what `remove` / `discard` / `-=` rely on)
+                objs = _preorder(res2.contents)
+                ends = [(o, f) for o in objs for f in sorted(o.eClass.eAllReferences(), key=lambda f: f.name)
+                        if f.many and f.eOpposite is not None and not f.derived]
+                calls = []
+                for step in range(4):
+                    live = [(o, f) for o, f in ends if len(o.eGet(f))]
+                    if not live:
+                        break
+                    o, f = rng.choice(live)
+                    coll = o.eGet(f)
+                    before = list(coll)
+                    y = rng.choice(before)
+                    form = rng.choice(['remove', 'discard', 'isub']) if hasattr(coll, 'discard') else 'remove'
+                    calls.append(f'{o.eClass.name}.{f.name}: {form} of element {before.index(y)} of {len(before)}')
+                    ctx.evaluations += 1
+                    try:
+                        if form == 'remove':
+                            coll.remove(y)
+                        elif form == 'discard':
+                            coll.discard(y)
+                        else:
+                            coll -= [y]
+                    except Exception as e:
+                        ctx.count(f'load/{fmt}/use-raised/' + type(e).__name__)
+                    ctx.nontriv(('load-use', h, how, step))
+                    after = list(o.eGet(f))
+                    bad = inconsistent.asymmetric(res2.contents, unproxy)
+                    if not bad and [id(v) for v in after] != [id(v) for v in before if v is not y]:
+                        bad = f'{o.eClass.name}.{f.name}: taking one value out left other values than the remaining ones'
+                    if bad:
+                        ctx.violate({'clause': 'sym-after-load-use', 'format': fmt, 'document': how},
+                                    f'after loading a {fmt} document ({how}) and {calls[-1]}: {bad}',
+                                    {'case': h, 'format': fmt, 'document': how, 'calls': calls,
+                                     'text': doc.decode('utf-8', 'replace')[:3000]})
+                        break
+                if ctx.violations:
                     break
     finally:
         shutil.rmtree(tmp, ignore_errors=True)
